@@ -4,7 +4,15 @@ use std::cmp::Reverse;
 use std::collections::HashMap;
 use std::hash::Hash;
 use std::marker::Copy;
+#[cfg(resolved_verif)]
+use simseam::clock::Instant;
+#[cfg(resolved_verif)]
+use simseam::sync::{Arc, Mutex};
+#[cfg(not(resolved_verif))]
 use std::sync::{Arc, Mutex};
+#[cfg(resolved_verif)]
+use std::time::Duration;
+#[cfg(not(resolved_verif))]
 use std::time::{Duration, Instant};
 
 use dns_types::protocol::types::*;
@@ -534,6 +542,75 @@ impl<K1: Clone + Eq + Hash, K2: Copy + Eq + Hash, V: PartialEq> PartitionedCache
             }
         } else {
             0
+        }
+    }
+}
+
+/// Read-only structural dump of a cache, for the verification harness.
+#[cfg(resolved_verif)]
+#[derive(Debug, Clone)]
+pub struct VerifSnapshot {
+    pub current_size: usize,
+    pub desired_size: usize,
+    /// `(name, last_read, next_expiry, size, records)`
+    #[allow(clippy::type_complexity)]
+    pub partitions: Vec<(
+        DomainName,
+        Instant,
+        Instant,
+        usize,
+        Vec<(RecordTypeWithData, Instant)>,
+    )>,
+    pub access_priority: Vec<(DomainName, Instant)>,
+    pub expiry_priority: Vec<(DomainName, Instant)>,
+}
+
+#[cfg(resolved_verif)]
+impl SharedCache {
+    /// # Panics
+    ///
+    /// If the mutex has been poisoned.
+    pub fn verif_snapshot(&self) -> VerifSnapshot {
+        self.cache
+            .lock()
+            .expect(MUTEX_POISON_MESSAGE)
+            .verif_snapshot()
+    }
+}
+
+#[cfg(resolved_verif)]
+impl Cache {
+    pub fn verif_snapshot(&self) -> VerifSnapshot {
+        let mut partitions = Vec::with_capacity(self.inner.partitions.len());
+        for (name, partition) in &self.inner.partitions {
+            let mut records = Vec::with_capacity(partition.size);
+            for tuples in partition.records.values() {
+                records.extend(tuples.iter().cloned());
+            }
+            partitions.push((
+                name.clone(),
+                partition.last_read,
+                partition.next_expiry,
+                partition.size,
+                records,
+            ));
+        }
+        VerifSnapshot {
+            current_size: self.inner.current_size,
+            desired_size: self.inner.desired_size,
+            partitions,
+            access_priority: self
+                .inner
+                .access_priority
+                .iter()
+                .map(|(k, p)| (k.clone(), p.0))
+                .collect(),
+            expiry_priority: self
+                .inner
+                .expiry_priority
+                .iter()
+                .map(|(k, p)| (k.clone(), p.0))
+                .collect(),
         }
     }
 }
